@@ -323,7 +323,7 @@ class UpdateCollection(Message):
                 raise ValueError(error)
 
             is_v4 = nlri.afi == AFI.ipv4
-            is_v4 = is_v4 and nlri.safi in [SAFI.unicast, SAFI.multicast]
+            is_v4 = is_v4 and nlri.safi == SAFI.unicast  # RFC 4760: every other family travels in MP_REACH/MP_UNREACH
             is_v4 = is_v4 and nexthop.afi == AFI.ipv4
 
             if is_v4:
@@ -351,7 +351,7 @@ class UpdateCollection(Message):
                 continue
 
             is_v4 = nlri.afi == AFI.ipv4
-            is_v4 = is_v4 and nlri.safi in [SAFI.unicast, SAFI.multicast]
+            is_v4 = is_v4 and nlri.safi == SAFI.unicast  # RFC 4760: every other family travels in MP_REACH/MP_UNREACH
 
             if is_v4:
                 v4_withdraws.append(nlri)
